@@ -168,6 +168,8 @@ impl Watchexec {
 			);
 			tasks.spawn(error_hook(er_r, config.error_handler.clone()).map_ok(|()| "error"));
 
+			let mut exiting = false;
+			let mut error_channel_closed = None;
 			while let Some(Ok(res)) = tasks.join_next().await {
 				match res {
 					Ok("action") => {
@@ -179,13 +181,25 @@ impl Watchexec {
 					}
 					Err(CriticalError::Exit) => {
 						trace!("got graceful exit request via critical error, erasing the error");
+						exiting = true;
 						// Close event channel to signal worker task to stop
 						ev_s.close();
+					}
+					Err(e @ CriticalError::ErrorChannelSend(_)) => {
+						// Only the error hook closes the error channel, by ending: the critical
+						// error it ended with is the one to report, and it may still be on its
+						// way here. Keep this one only as a fallback.
+						debug!("a worker found the error channel closed, waiting for the cause");
+						error_channel_closed.get_or_insert(e);
 					}
 					Err(e) => {
 						return Err(e);
 					}
 				}
+			}
+
+			if let (false, Some(e)) = (exiting, error_channel_closed) {
+				return Err(e);
 			}
 
 			debug!("main task graceful exit");
